@@ -25,6 +25,8 @@ PY = sys.executable
 CHECK = os.path.join(VERIF, 'check.py')
 RUN_ALARM_S = 60
 THOROUGH_OFFSET = 16 * 10 ** 7
+TZ_CLASSES = ['UTC0', 'GMT0BST,M3.5.0/1,M10.5.0', 'EST5EDT,M3.2.0,M11.1.0', 'JST-9', 'UTC0']      # POSIX rules: no tz database needed
+CPU_CLASSES = [16, 1, 2, 4, 8, 64, 16]
 
 
 def load(prop):
@@ -172,6 +174,10 @@ def _spawn(args, hash_seed, env_extra=None):
     env['OMP_NUM_THREADS'] = '1'
     env['OPENBLAS_NUM_THREADS'] = '1'
     env['MKL_NUM_THREADS'] = '1'
+    # the worker's time zone and apparent CPU count are part of its (seeded, replayable) configuration class
+    k_ = HASH_SEEDS.index(int(hash_seed)) if int(hash_seed) in HASH_SEEDS else int(hash_seed) % 16
+    env['TZ'] = TZ_CLASSES[k_ % len(TZ_CLASSES)]
+    env['VERIF_CPU_COUNT'] = str(CPU_CLASSES[k_ % len(CPU_CLASSES)])
     if env_extra:
         env.update(env_extra)
     return subprocess.Popen([PY, CHECK] + args, env=env, cwd=VERIF, stdout=subprocess.PIPE, stderr=subprocess.STDOUT, text=True)
@@ -475,10 +481,11 @@ def replay_main(prop, path):
     with open(path) as f:
         rec = json.load(f)
     hs = str(rec.get('hash_seed', 0))
-    if os.environ.get('PYTHONHASHSEED') != hs:
-        env = dict(os.environ)
-        env['PYTHONHASHSEED'] = hs
-        return subprocess.call([PY, CHECK, prop, '--replay', path], env=env, cwd=VERIF)
+    if os.environ.get('PYTHONHASHSEED') != hs or 'VERIF_CPU_COUNT' not in os.environ:
+        p = _spawn([prop, '--replay', path], hs)        # same hash seed, time zone and CPU-count class as the failing worker
+        out, _ = p.communicate()
+        sys.stdout.write(out)
+        return p.returncode
     from sim import seams
     seams.install()
     mod = load(prop)
